@@ -343,6 +343,15 @@ def gen_op(rng, name, c):
         a['b'] = rng.random() < 0.5
         a['b2'] = rng.random() < 0.4
         a['n'] = rng.randrange(-1, 9)
+    elif name == 'zipRoot':
+        a['ns'] = [rng.choice([0, 1, 1, 1, 2, c.n] if rng.random() < 0.95 else [-1])] + (
+            [rng.choice([0, 1, 2])] if rng.random() < 0.3 else [])
+    elif name == 'joinRoot':
+        a['f2'], a['g2'] = lam2_for(rng, 'pred'), lam2_for(rng, 'sel')
+    elif name == 'concatRoot':
+        a['n'] = rng.choice([0, 1, 1, 2, c.n, c.n + 1] if rng.random() < 0.95 else [-1])
+    elif name == 'partialThenFull':
+        a['n'] = rng.randrange(0, c.n + 2) if rng.random() < 0.95 else -1
     elif name == 'listLit':
         a['vs'] = few(rng, lambda: some_elem(rng, c), 0, 2)
     elif name == 'toDict':
@@ -428,8 +437,9 @@ DICT_OPS = ['attr', 'index', 'indexDflt', 'get', 'dictSet', 'dictSetMany', 'dict
 SET_OPS = ['union', 'intersect', 'difference', 'minus', 'symmetricDifference', 'add', 'remove', 'setCmp', 'len',
            'contains', 'in', 'toSet', 'count', 'isSet', 'plusRight']
 SOURCE_OPS = ['range1', 'range3', 'sequenceTake']
+ROOT_OPS = ['zipRoot', 'joinRoot', 'concatRoot', 'partialThenFull']
 SCALAR_OPS = ['generate', 'generateManyTake', 'repeatTake', 'listLit', 'list', 'set', 'isIterable']
-ALL_OPS = sorted(set(ITER_OPS + SEQ_OPS + ORD_OPS + DICT_OPS + SET_OPS + SOURCE_OPS + SCALAR_OPS)) + sorted(ALIASES)
+ALL_OPS = sorted(set(ITER_OPS + SEQ_OPS + ORD_OPS + DICT_OPS + SET_OPS + SOURCE_OPS + SCALAR_OPS)) + sorted(ALIASES) + ROOT_OPS
 
 RESULT_KIND = {}
 for _n in ALL_OPS:
@@ -468,6 +478,10 @@ for _n in ORD_OPS:
 for _n in SOURCE_OPS:
     RECEIVERS[_n] = ['scalar']
 RECEIVERS['generate'] = ['scalar']
+for _n in ROOT_OPS:
+    RECEIVERS[_n] = ['iter', 'iter', 'iter', 'list', 'set']
+    RESULT_KIND[_n] = 'lazy'
+RESULT_KIND['partialThenFull'] = 'seq'
 RECEIVERS['generateManyTake'] = ['scalar']
 for _a, _b in ALIASES.items():
     RECEIVERS[_a] = RECEIVERS[_b]
@@ -504,7 +518,12 @@ def next_ops(kind):
 def pipeline(rng, fname, max_ops=4):
     """a case exercising function `fname`: (kind, profile, data value, ops)"""
     pre = []
-    if fname in ORD_OPS:
+    binder = None
+    if fname in ROOT_OPS:
+        # the receiver is `$` itself or something lazily derived from it: two live consumers of `$`
+        if fname != 'partialThenFull' and rng.random() < 0.45:
+            pre = [rng.choice(['where', 'select', 'skip', 'take', 'enumerate', 'distinct', 'takeWhile'])]
+    elif fname in ORD_OPS:
         pre = ['orderBy' if rng.random() < 0.6 else 'orderByDescending']
     elif fname in SOURCE_OPS or fname in ('generate', 'generateManyTake'):
         pre = []
@@ -553,10 +572,20 @@ def pipeline(rng, fname, max_ops=4):
         if not cand:
             break
         n = rng.choice(cand)
-        if n in SOURCE_OPS or n in ('generate', 'generateManyTake'):
+        if n in SOURCE_OPS or n in ('generate', 'generateManyTake', 'partialThenFull'):
             continue
         ops.append(gen_op(rng, n, c))
         cur = RESULT_KIND[n]
         if n in ('memorize', 'defaultIfEmpty'):
             cur = 'lazy'
-    return kind, prof, value, ops
+    if kind in ('iter', 'list', 'set'):
+        r = rng.random()
+        if fname in ROOT_OPS:
+            binder = {'op': 'memorize'} if r < 0.75 else (
+                {'op': 'defaultIfEmpty', 'vs': tuple(elems(rng, prof, rng.randrange(1, 3)))} if r < 0.92 else None)
+        elif r < 0.06:
+            binder = {'op': 'memorize'}
+    if binder is not None and rng.random() < 0.35 and len(ops) < max_ops and fname not in ('generate', 'generateManyTake') \
+            and fname not in SOURCE_OPS and cur in ('lazy', 'seq', 'list', 'iter'):
+        ops.append(gen_op(rng, rng.choice(['zipRoot', 'joinRoot', 'concatRoot']), c))
+    return kind, prof, value, ops, binder
